@@ -178,3 +178,34 @@ def compare_parts(e: ast.expr):
 
 def names_in(e: ast.AST) -> set[str]:
     return {n.id for n in ast.walk(e) if isinstance(n, ast.Name)}
+
+
+def sync_closure(ctx: "Context", roots: list[str], max_funcs: int = 400) -> list[str]:
+    """Package functions that run synchronously inside the roots (resolved calls; coroutines/generators
+    that are merely created - tasks - are not entered)."""
+    seen: list[str] = []
+    work = list(roots)
+    while work and len(seen) < max_funcs:
+        q = work.pop()
+        if q in seen or q not in ctx.prog.functions:
+            continue
+        seen.append(q)
+        f = ctx.prog.functions[q]
+        if isinstance(f.node, ast.Lambda):
+            continue
+        for n in walk_own(f.node):
+            if isinstance(n, ast.Call):
+                for cal in ctx.res.resolve_call(f, n, record=False):
+                    g = ctx.prog.functions.get(cal)
+                    if g is not None and not g.is_async and not g.is_generator and cal not in seen:
+                        work.append(cal)
+            elif isinstance(n, ast.Attribute) and isinstance(n.ctx, ast.Load):
+                # properties of self
+                owner = f
+                while owner.parent is not None:
+                    owner = owner.parent
+                if owner.cls is not None and isinstance(n.value, ast.Name) and n.value.id == "self":
+                    m = ctx.prog.lookup_method(owner.cls.qualname, n.attr)
+                    if m is not None and "property" in m.decorators and m.qualname not in seen:
+                        work.append(m.qualname)
+    return seen
